@@ -288,6 +288,8 @@ class Parser:
 
     @override_docstring(r_import)
     def p_import(self, p: P) -> None:
+        # Keep the line number on this production for the rules referencing it.
+        p.set_lineno(0, p.lineno(1))
         # Get filepath to import.
         importing_path = p[len(p) - 2]
         filepath = self._get_child_filepath(importing_path)
@@ -625,7 +627,10 @@ class Parser:
         if isinstance(p[1], Constant):
             raise ConstInEnumUnsupported.from_token(token=p[1])
         if isinstance(p[1], Proto):
-            raise ImportInEnumUnsupported.from_token(token=p[1])
+            # The imported proto is bound to its own file, the error is in current file.
+            raise ImportInEnumUnsupported(
+                filepath=self.current_filepath(), token="import", lineno=p.lineno(1)
+            )
         if isinstance(p[1], Option):
             raise OptionInEnumUnsupported.from_token(token=p[1])
         if isinstance(p[1], Enum):
@@ -706,7 +711,10 @@ class Parser:
         if isinstance(p[1], Constant):
             raise ConstInMessageUnsupported.from_token(token=p[1])
         if isinstance(p[1], Proto):
-            raise ImportInMessageUnsupported.from_token(token=p[0])
+            # The imported proto is bound to its own file, the error is in current file.
+            raise ImportInMessageUnsupported(
+                filepath=self.current_filepath(), token="import", lineno=p.lineno(1)
+            )
         raise StatementInMessageUnsupported(
             lineno=p.lineno(1), filepath=self.current_filepath()
         )
